@@ -167,7 +167,8 @@ struct CohZp : F {
     return "bad-op"; } };
 struct CohMulti : F {
   std::unique_ptr<Gudhi::persistent_cohomology::Multi_field> f;
-  std::string init(const Toks& t) override { f.reset(new Gudhi::persistent_cohomology::Multi_field()); f->init((int)L(t[1]), (int)L(t[2])); if (f->characteristic() <= 1) throw std::invalid_argument("no prime"); return "ok " + f->characteristic().get_str(); }
+  // one object per history: a second `init` re-initialises the same object (it must leave no trace of the first range)
+  std::string init(const Toks& t) override { if (!f) f.reset(new Gudhi::persistent_cohomology::Multi_field()); f->init((int)L(t[1]), (int)L(t[2])); if (f->characteristic() <= 1) throw std::invalid_argument("no prime"); return "ok " + f->characteristic().get_str(); }
   std::string op(const Toks& t) override {
     const std::string& o = t[0];
     mpz_class a = t.size() > 1 ? mpz_class(t[1]) : mpz_class(0), b = t.size() > 2 ? mpz_class(t[2]) : mpz_class(0), c = t.size() > 3 ? mpz_class(t[3]) : mpz_class(0);
